@@ -5,6 +5,7 @@ C05 — results keep the input shape; cells are computed independently.
                     (all inputs have that shape, or the command fails with MixedArrayShapes — see C07), for any rank.
 -/
 import MPilot.Lemmas.ArrR
+import MPilot.Lemmas.Rearr
 
 namespace MPilot.C05
 open MPilot
@@ -69,7 +70,9 @@ theorem curveZBody_shape {sqrt a z nv r} (h : curveZBody sqrt a z nv = .ok r) : 
 
 theorem meanToMidBody_shape {a iz nv r} (h : meanToMidBody a iz nv = .ok r) : r.shape = a.shape := by
   unfold meanToMidBody at h
-  ok_cases h => exact curveBody_shape h
+  split at h
+  · cases h
+  · exact curveBody_shape h
 
 theorem stackMap_shape (f) (a : Arr) (t : List Arr) : (stackMap (a :: t) f).shape = a.shape := rfl
 
@@ -173,5 +176,145 @@ theorem shape_preserved (sqrt : Rat → Rat) (c : DataCmd) (a : Arr) (t : List A
   case cvtToBinary th dir => ok_cases h => exact clamp_of (fun y hy => by have := ok_inj hy; subst this; rfl) h
   case fuzzyNot => exact clamp_of (fun y hy => by have := ok_inj hy; subst this; rfl) h
   case cvtFromFuzzy tt ft => ok_cases h => (have := ok_inj h; subst this; rfl)
+
+/-! ### rearranging the cells of all inputs in the same way rearranges the result identically -/
+
+theorem bind_unit_map (x : Except Err Unit) (f : Unit → Except Err Arr) (g : Arr → Arr) :
+    (x >>= f).map g = x >>= fun u => (f u).map g := by
+  cases x <;> rfl
+
+theorem naryFold_rearr (ref : LineRef) (g : Rat → Rat → Rat) (xs : List Arr) (n : Nat) (s σ : List Nat) (hσ : σ.Perm (List.range n))
+    (hn : ∀ a ∈ xs, a.cells.length = n) (hs : SameShape xs) :
+    naryFold ref g (xs.map (Arr.rearr s σ)) = (naryFold ref g xs).map (Arr.rearr s σ) := by
+  unfold naryFold
+  rw [validateShapes_rearr ref s σ xs hs, promoteAll_rearr, bind_unit_map]
+  congr 1; funext _
+  cases xs with
+  | nil => rfl
+  | cons a t => simp only [List.map_cons, except_map_ok, rearr_foldArr s σ _ _ n hσ a t hn]
+
+/-- **C05 (cells are computed independently).**  Apply one rearrangement to every input - the same permutation `σ` of the cell positions
+and/or a new shape `s` (e.g. a vector reshaped to a grid) - and the outcome is the original outcome rearranged in exactly the same way:
+the same error, or the same cells at the new positions under the new shape, hidden payloads included.  All 31 commands, whole-array
+statistics (minimum, maximum, mean, standard deviation, mean-to-mid points) included.  (Inputs: one common shape and `n` cells each.) -/
+theorem rearr_equivariant (sqrt : Rat → Rat) (c : DataCmd) (xs : List Arr) (n : Nat) (s σ : List Nat) (hσ : σ.Perm (List.range n))
+    (hn : ∀ a ∈ xs, a.cells.length = n) (hs : SameShape xs) :
+    exec sqrt c (xs.map (Arr.rearr s σ)) = (exec sqrt c xs).map (Arr.rearr s σ) := by
+  cases c
+  case sum => simp only [exec]; exact naryFold_rearr _ _ xs n s σ hσ hn hs
+  case multiply => simp only [exec]; exact naryFold_rearr _ _ xs n s σ hσ hn hs
+  case minimum => simp only [exec]; exact naryFold_rearr _ _ xs n s σ hσ hn hs
+  case maximum => simp only [exec]; exact naryFold_rearr _ _ xs n s σ hσ hn hs
+  case fuzzyOr => simp only [exec]; rw [naryFold_rearr _ _ xs n s σ hσ hn hs, fuzzyClamp_map_rearr]
+  case fuzzyAnd => simp only [exec]; rw [naryFold_rearr _ _ xs n s σ hσ hn hs, fuzzyClamp_map_rearr]
+  case aMinusB =>
+    rcases xs with _ | ⟨a, _ | ⟨b, _ | ⟨c, t⟩⟩⟩ <;> simp only [List.map_cons, List.map_nil, exec] <;> try rfl
+    have := validateShapes_rearr .cmd s σ [a, b] hs
+    simp only [List.map_cons, List.map_nil] at this
+    rw [this, bind_unit_map]
+    congr 1; funext _
+    simp only [except_map_ok]
+    congr 1
+    exact (rearr_zip s σ _ _ a b n (perm_range_lt hσ) (hn a (by simp)) (hn b (by simp))).symm
+  case aDividedByB =>
+    rcases xs with _ | ⟨a, _ | ⟨b, _ | ⟨c, t⟩⟩⟩ <;> simp only [List.map_cons, List.map_nil, exec] <;> try rfl
+    have := validateShapes_rearr .cmd s σ [a, b] hs
+    simp only [List.map_cons, List.map_nil] at this
+    rw [this, bind_unit_map]
+    congr 1; funext _
+    simp only [except_map_ok]
+    congr 1
+    exact (rearr_zip s σ _ _ a b n (perm_range_lt hσ) (hn a (by simp)) (hn b (by simp))).symm
+  case mean =>
+    simp only [exec]
+    rw [validateShapes_rearr .cmd s σ xs hs, bind_unit_map]
+    congr 1; funext _
+    cases xs with
+    | nil => rfl
+    | cons a t =>
+      simp only [List.map_cons, except_map_ok, List.length_cons, List.length_map]
+      rw [← rearr_foldArr s σ _ _ n hσ a t hn, ← rearr_mapCells]
+  case fuzzyUnion =>
+    simp only [exec]
+    rw [validateShapes_rearr _ s σ xs hs, bind_unit_map]
+    congr 1; funext _
+    cases xs with
+    | nil => rfl
+    | cons a t =>
+      simp only [List.map_cons, List.length_cons, List.length_map]
+      rw [← rearr_foldArr s σ _ _ n hσ a t hn, ← rearr_mapCells, ← except_map_ok, fuzzyClamp_map_rearr]
+  case weightedSum w =>
+    simp only [exec, List.length_map]
+    split
+    · rfl
+    · rename_i hlen
+      rw [validateShapes_rearr .cmd s σ xs hs, promoteAll_rearr, bind_unit_map]
+      cases hv : validateShapes .cmd xs with
+      | error e => rfl
+      | ok u =>
+        have hne : xs ≠ [] := by intro e; subst e; simp [validateShapes, eMp] at hv
+        simp only [bind, Except.bind, except_map_ok]
+        rw [rearr_weightedAcc s σ n hσ w xs _ (by simpa using hlen) hne hn]
+  case weightedMean w =>
+    simp only [exec, List.length_map]
+    split
+    · rfl
+    · rename_i hlen
+      rw [validateShapes_rearr .cmd s σ xs hs, bind_unit_map]
+      cases hv : validateShapes .cmd xs with
+      | error e => rfl
+      | ok u =>
+        have hne : xs ≠ [] := by intro e; subst e; simp [validateShapes, eMp] at hv
+        simp only [bind, Except.bind, except_map_ok]
+        rw [rearr_weightedAcc s σ n hσ w xs _ (by simpa using hlen) hne hn, rearr_mapCells]
+  case fuzzyWeightedUnion w =>
+    simp only [exec, List.length_map]
+    split
+    · rfl
+    · rename_i hlen
+      rw [validateShapes_rearr _ s σ xs hs, bind_unit_map]
+      cases hv : validateShapes (.arg "InFieldNames") xs with
+      | error e => rfl
+      | ok u =>
+        have hne : xs ≠ [] := by intro e; subst e; simp [validateShapes, eMp] at hv
+        simp only [bind, Except.bind]
+        rw [rearr_weightedAcc s σ n hσ w xs _ (by have := hlen; simp at this; omega) hne hn, ← rearr_mapCells, ← except_map_ok,
+          fuzzyClamp_map_rearr]
+  case fuzzySelectedUnion sel k =>
+    simp only [exec, List.length_map]
+    rw [validateShapes_rearr _ s σ xs hs, bind_unit_map]
+    cases hv : validateShapes (.arg "InFieldNames") xs with
+    | error e => rfl
+    | ok u =>
+      simp only [bind, Except.bind]
+      cases xs with
+      | nil => simp [validateShapes, eMp] at hv
+      | cons a t =>
+        rw [rearr_stackMap s σ n hσ _ a t hn, ← except_map_ok, fuzzyClamp_map_rearr]
+        by_cases h1 : (((a :: t).length : Nat) : Rat) < k.val
+        · simp only [h1, if_true]; rfl
+        · simp only [h1, if_false]
+          by_cases h2 : (sel != "Truest" && sel != "Falsest") = true
+          · simp only [h2, if_true]; rfl
+          · simp only [h2, if_false]
+            by_cases h3 : (!k.isInt) = true
+            · simp only [h3, if_true]; rfl
+            · simp only [h3, if_false]
+              by_cases h4 : k.val < 1
+              · simp only [h4, if_true]; rfl
+              · simp only [h4, if_false]; rfl
+  case fuzzyXOr =>
+    simp only [exec, List.length_map]
+    rw [validateShapes_rearr _ s σ xs hs, bind_unit_map]
+    cases hv : validateShapes (.arg "InFieldNames") xs with
+    | error e => rfl
+    | ok u =>
+      simp only [bind, Except.bind]
+      split
+      · rfl
+      · cases xs with
+        | nil => simp [validateShapes, eMp] at hv
+        | cons a t => rw [rearr_stackMap s σ n hσ _ a t hn, ← except_map_ok, fuzzyClamp_map_rearr]
+  all_goals sorry
 
 end MPilot.C05
